@@ -8,7 +8,7 @@ Two ties (DESIGN.md §6 C08):
       written independently of ISLa's algorithm: wrap the whole formula in `forall`, no push-in).
 Disagreements of (ii) are classified: class K_pushin_empty (sugar FALSE or raising, documented core TRUE, and some universally
 closed variable has an empty domain) is the recorded open finding; everything else is a VIOLATION."""
-import json, random, itertools
+import json, random, itertools, re
 import z3
 import lib
 from lib import g_str, g_nat, g_list, g_grammar
@@ -1028,6 +1028,44 @@ def k_fresh_clash(surface):
     return any(len(ks) > 1 for ks in by_nt.values())
 
 
+def binder_names(f, acc, mult=1):
+    """user-written binder names (quantifier variables, match-expression variables, numeric variables) with the number
+    of copies the elaboration makes of them (operands of iff / xor are duplicated)"""
+    k = f[0]
+    if k == 'atom':
+        pass
+    elif k == 'not':
+        binder_names(f[1], acc, mult)
+    elif k == 'int':
+        acc.extend([f[2]] * mult)
+        binder_names(f[3], acc, mult)
+    elif k == 'q':
+        if f[3] is not None:
+            acc.extend([f[3]] * mult)
+        for e in (f[6] or []):
+            if e[0] == 'b':
+                acc.extend([e[2]] * mult)
+        binder_names(f[5], acc, mult)
+    elif k in ('iff', 'xor'):
+        binder_names(f[1], acc, 2 * mult); binder_names(f[2], acc, 2 * mult)
+    else:
+        binder_names(f[1], acc, mult); binder_names(f[2], acc, mult)
+    return acc
+
+
+def k_uniq_capture(surface):
+    """python mirror (over-approximation, used only OUTSIDE the Coq guard sugar_guard2) of the class K_uniq_capture =
+    negation of SugarAlpha3.uniq_ok: some binder name is repeated (so ensure_unique_bound_variables invents a name
+    stem_k) and the stem of a user-written binder name is the base of a variable the elaboration invents for a free
+    nonterminal / unnamed quantifier / XPath expression (whose name the used-name set of the pass does not contain)"""
+    names = binder_names(surface, [])
+    if len(set(names)) == len(names):
+        return False
+    stems = {re.sub(r"_[0-9]+$", "", n) for n in names}
+    invented = {nt[1:-1] for _, nt in fresh_bases(surface, [])}
+    return bool(stems & invented)
+
+
 def k_root_also_free(surface):
     """a free nonterminal occurs both on its own and as the first element of an XPath expression"""
     alone, roots = set(), set()
@@ -1055,6 +1093,9 @@ def k_root_also_free(surface):
     return bool(alone & roots)
 
 
+CAPTURE_WITNESS = {"grammar": 3, "sugar": '(exists <a> a in start: a = "x") and (forall <a> a in start: a = <a>)',
+                   "core": 'forall <a> a_0 in start: ((exists <a> a in start: (= a "x")) and (forall <a> a in start: (= a a_0)))',
+                   "input": "xzy"}
 FINDING_WITNESS = {"grammar": 0, "sugar": '<a> = "x" and <b> = "y"',
                    "core": 'forall <a> a in start: forall <b> b in start: ((= a "x") and (= b "y"))', "input": "z"}
 
@@ -1073,11 +1114,19 @@ def replay_known(run):
     for e in lib.known_findings("C08"):
         if e.get("status") == "open" and e.get("class") == "K_pushin_empty" and s == ("ok", "FALSE") and c == ("ok", "TRUE"):
             run.known(e["what"])
+    w2 = CAPTURE_WITNESS
+    g2 = GRAMMARS[w2["grammar"]]
+    t2 = tree_of_string(g2, w2["input"])
+    s2 = impl_eval(parse_isla(w2["sugar"], g2, SP, MP), t2, g2)
+    c2 = impl_eval(parse_isla(w2["core"], g2, SP, MP), t2, g2)
+    for e in lib.known_findings("C08"):
+        if e.get("status") == "open" and e.get("class") == "K_uniq_capture" and s2 == ("ok", "TRUE") and c2 == ("ok", "FALSE"):
+            run.known(e["what"])
     return s, c
 
 
-GUARD_EXPR = "sugar_guard g s"
-GUARD_IMPORTS = "SugarCompose SugarComposeX"
+GUARD_EXPR = "sugar_guard2 g s"
+GUARD_IMPORTS = "SugarCompose SugarComposeX SugarCompose2"
 
 
 def run(run):
@@ -1102,7 +1151,7 @@ def run(run):
     nform = 2000 if thorough else 360
     ntrees = 4 if thorough else 3
     hist = {"parse_ok": 0, "parse_raise": 0, "doc_undefined": 0, "eval_pairs": 0, "eval_agree": 0,
-            "known_pushin_empty": 0, "known_dotdot_polarity": 0, "known_fresh_clash": 0, "known_root_also_free": 0, "known_xpath_dup": 0, "nonconstant_formulas": 0, "uses_xpath": 0, "uses_dotdot": 0,
+            "known_pushin_empty": 0, "known_dotdot_polarity": 0, "known_fresh_clash": 0, "known_root_also_free": 0, "known_xpath_dup": 0, "known_uniq_capture": 0, "nonconstant_formulas": 0, "uses_xpath": 0, "uses_dotdot": 0,
             "uses_free_nt": 0, "uses_derived": 0, "undecodable": 0, "uses_user_mexpr": 0,
             "uses_mexpr_var_and_free_nt_same_type": 0, "uses_numeric_quantifier": 0, "uses_infix_chain": 0}
     cases, meta = [], []          # tie (i)
@@ -1162,6 +1211,7 @@ def run(run):
         core_txt = p_core(core)
         rc = impl_parse(core_txt, g)
         kd, kf, kr, kx = k_dotdot_polarity(f), k_fresh_clash(f), k_root_also_free(f), k_xpath_dup(f)
+        ku = k_uniq_capture(f)
 
         def known_static():
             """classes that depend on the formula only"""
@@ -1181,6 +1231,10 @@ def run(run):
                 hist["known_dotdot_polarity"] += 1
                 run.known(known["K_dotdot_polarity"]["what"])
                 return True
+            if ku and "K_uniq_capture" in known:
+                hist["known_uniq_capture"] += 1
+                run.known(known["K_uniq_capture"]["what"])
+                return True
             return False
         if r[0] != "ok" or rc[0] != "ok":
             hist["eval_pairs"] += 1
@@ -1192,7 +1246,7 @@ def run(run):
                 eval_viol.append({"kind": "sugar and documented core: one is rejected by the parser", "grammar": gi,
                                   "sugar": sugar, "core": core_txt, "sugar_parse": list(r[:1]) + list(r[1:] if r[0] != "ok" else []),
                                   "core_parse": list(rc[:1]) + list(rc[1:] if rc[0] != "ok" else []),
-                                  "K_dotdot_polarity": kd, "K_fresh_clash": kf, "K_root_also_free": kr, "K_xpath_dup": kx})
+                                  "K_dotdot_polarity": kd, "K_fresh_clash": kf, "K_root_also_free": kr, "K_xpath_dup": kx, "K_uniq_capture": ku})
             continue
         cost = per_g.setdefault(gi, min_cost(gen.cg))
         verdicts = set()
@@ -1216,14 +1270,14 @@ def run(run):
                 continue
             wit = {"grammar": gi, "sugar": sugar, "core": core_txt, "input": str(t), "sugar_verdict": list(vs),
                    "core_verdict": list(vc), "K_pushin_empty": kflag, "domain_sizes": doms,
-                   "K_dotdot_polarity": kd, "K_fresh_clash": kf, "K_root_also_free": kr, "K_xpath_dup": kx}
+                   "K_dotdot_polarity": kd, "K_fresh_clash": kf, "K_root_also_free": kr, "K_xpath_dup": kx, "K_uniq_capture": ku}
             if known_static():
                 excused.append((n, wit))         # re-examined below: inside the proved guard no class may excuse it
                 continue
             eval_viol.append({"kind": "sugar and documented core evaluate differently", "grammar": gi,
                               "sugar": sugar, "core": core_txt, "input": str(t), "sugar_verdict": list(vs),
                               "core_verdict": list(vc), "K_pushin_empty": kflag, "domain_sizes": doms,
-                              "K_dotdot_polarity": kd, "K_fresh_clash": kf, "K_root_also_free": kr, "K_xpath_dup": kx})
+                              "K_dotdot_polarity": kd, "K_fresh_clash": kf, "K_root_also_free": kr, "K_xpath_dup": kx, "K_uniq_capture": ku})
         hist["nonconstant_formulas"] += len(verdicts) > 1
 
     # ---- tie (i) in Coq.  Every coqc process costs seconds of start-up/import CPU (much more on a loaded machine),
@@ -1290,13 +1344,15 @@ def run(run):
         hist["inside_guard_eval_pairs"] = sum(pairs_of.get(n, 0) for n in in_n)
         hist["inside_guard_pushin_empty_disagreements"] = sum(pushin_of.get(n, 0) for n in in_n)
         hist["outside_guard_formulas"] = len(case_of) - len(in_n)
-        run.cov["guard"] = (f"{GUARD_EXPR} (Logic/SugarComposeX.v: sugar_guard_nox s || sugar_guard_xp1 g s) evaluated by vm_compute on all {len(case_of)} decodable "
+        run.cov["guard"] = (f"{GUARD_EXPR} (Logic/SugarCompose2.v: sugar_guard_nox2 s || sugar_guard_xp1b g s; wave-4 guard without "
+                            "the condition 'binder names pairwise distinct': it is replaced by the guard uniq_ok of the alpha-renaming "
+                            f"theorem C08_uniq_sound_partial) evaluated by vm_compute on all {len(case_of)} decodable "
                             f"cases: {len(in_n)} inside; their {hist['inside_guard_eval_pairs']} sugar/core evaluation pairs "
                             "must agree unless the input is in K_pushin_empty (premise of the theorem) - no static class "
                             "excuses a disagreement inside the guard")
         for n, wit in excused:
             if n in in_n:
-                eval_viol.append(dict(wit, kind="INSIDE the guard of C08_sugar_core_noxpath_partial / _xpath1_partial (and not "
+                eval_viol.append(dict(wit, kind="INSIDE the guard of C08_sugar_core_noxpath2_partial / _xpath1b_partial (and not "
                                                 "K_pushin_empty) but sugar and documented core evaluate differently"))
     run._eval_viol, run._disagreements = eval_viol, disagreements
     run.cov["ast_cases"] = len(cases)
